@@ -34,6 +34,10 @@ def canon(v):
                     f"indices={canon(v.indices)}, indptr={canon(v.indptr)})")
         if isinstance(v, sparse.DOK):
             return f"DOK(shape={v.shape}, fill={canon(v.fill_value)}, dtype={v.dtype}, data={sorted((k, canon(x)) for k, x in v.data.items())})"
+    if type(v).__module__.startswith("scipy.sparse"):
+        c = v.tocoo()
+        return (f"{type(v).__name__}(shape={c.shape}, dtype={c.dtype}, row={c.row.tolist()}, col={c.col.tolist()}, "
+                f"data={canon(c.data)})")
     if isinstance(v, np.ndarray):
         return f"array({v.dtype},{v.shape},{v.tolist()!r})"
     if isinstance(v, np.generic):
@@ -75,7 +79,10 @@ def main():
             try:
                 rec = "ok " + canon(thunk())
             except Exception as e:  # noqa: BLE001 — the class and the message are part of the behaviour
-                rec = f"raise {type(e).__name__}: {e}"
+                msg = str(e)
+                if type(e).__module__.startswith("numba"):
+                    msg = msg.splitlines()[0] if msg else msg  # numba's compile errors quote source lines WITH line numbers
+                rec = f"raise {type(e).__name__}: {msg}"
             line = f"{desc} -> {rec}\n"
             h.update(line.encode())
             n += 1
